@@ -1077,3 +1077,46 @@ def reachable_calls(fi, facts):
         for c in node_calls(n):
             out.add(call_name(c))
     return out
+
+
+ENCODING_ATTRS = {"bipartition_encoding", "_bipartition_encoding", "bipartition", "_bipartition", "leafset_bitmask", "split_bitmask", "tree_leafset_bitmask", "_leafset_bitmask", "_split_bitmask",
+                  "_tree_leafset_bitmask", "split_edges", "bipartition_edge_map", "split_bitmask_edge_map", "_split_bitmask_edge_map", "_bipartition_edge_map"}
+STRUCT_QUERY_NAMES = {"__len__", "__iter__", "nodes", "leaf_nodes", "internal_nodes", "edges", "leaf_edges", "internal_edges", "length", "calc_node_ages", "calc_node_root_distances", "resolve_node_depths",
+                      "resolve_node_ages", "internal_node_ages", "node_ages", "num_lineages_at", "max_distance_from_root", "minmax_leaf_distance_from_root", "coalescence_intervals", "B1",
+                      "colless_tree_imbalance", "N_bar", "sackin_index", "pybus_harvey_gamma", "treeness", "child_nodes", "num_child_nodes", "is_leaf", "is_internal", "level", "distance_from_root", "distance_from_tip"}
+
+
+def structure_query_rule(index, rep, rid):
+    """Size, iteration, age and shape queries are decided from the node structure: neither they nor what they call read
+    the cached bipartition encoding, which is only current right after an encode (update_bipartitions is optional)."""
+    TMD_ = "dendropy.datamodel.treemodel."
+    roots = []
+    for m in (TMD_ + "_tree", TMD_ + "_node", TMD_ + "_edge"):
+        for f in index.functions_in_module(m):
+            if f.cls is not None and f.cls.name in ("Tree", "Node", "Edge") and (f.name in STRUCT_QUERY_NAMES or f.name.endswith("_iter")):
+                roots.append(f)
+    roots += [f for f in index.functions_in_module("dendropy.calculate.treemeasure") if f.cls is None]
+    seen = {}
+    work = [(f, f, 0) for f in roots]
+    while work:
+        f, root, d = work.pop()
+        if f.qualname in seen:
+            continue
+        seen[f.qualname] = root
+        if d >= 4:
+            continue
+        for c in calls_in(f.node, nested=True):
+            grade, cands = index.resolve_call(c, f)
+            if grade in ("self", "static"):
+                for k in cands:
+                    if hasattr(k, "node") and isinstance(k.node, ast.FunctionDef) and k.module.name.startswith(TMD_[:-1]):
+                        work.append((k, root, d + 1))
+    n = 0
+    for q, root in sorted(seen.items()):
+        f = index.functions[q]
+        n += 1
+        rd = sorted({x.attr for x in ast.walk(f.node) if isinstance(x, ast.Attribute) and x.attr in ENCODING_ATTRS and isinstance(x.ctx, ast.Load)})
+        rep.check(not rd, rid, f.qualname, "structure query reads the cached encoding: %s" % rd, fn_where(f), "%s reads no bipartition-encoding attribute" % f.qualname,
+                  "%s%s reads `%s`: the bipartition encoding is a cache that is current only right after encode_bipartitions / update_bipartitions, and every restructuring call lets the caller skip the update - so after tips are pruned or added the size / iteration / statistic is answered from the tree as it WAS (N-bar divided by a stale leaf count, a traversal of leaves that are gone)"
+                  % (f.qualname, "" if root is f else " (reached from %s)" % root.qualname, ", ".join(rd)))
+    return n
